@@ -1,10 +1,224 @@
-"""contract model of jax.lax.conv_general_dilated (filled in by the convolution stage)"""
-from .sym import OutOfReach
+"""contract model of jax.lax.conv_general_dilated (and conv_general_dilated_patches): the documented
+direct-sum definition of XLA's convolution for the dimension numbers ginjax uses
+(NHWC / HWIO / NHWC and NHWDC / HWDIO / NHWDC), with window strides, padding, lhs (image) dilation,
+rhs (filter) dilation and feature_group_count.  This is an ASSUMED contract of the library: it is the
+definition at the ravelled level; everything ginjax does around it (re-layouts, grouping, padding
+choice, wrap) is what gets verified."""
+from __future__ import annotations
+import itertools
+import z3
+from . import sym, arr
+from .sym import OutOfReach, Refuted, SInt, zi, mk, valid, concrete_int
+from .arr import SArray, Atom, Prod, extent, factors, lift
 
 
-def conv_general_dilated(*a, **k):
-    raise OutOfReach("conv_general_dilated model not available")
+def _used(name):
+    from . import lib
+    lib.used(name)
 
 
-def conv_general_dilated_patches(*a, **k):
-    raise OutOfReach("conv_general_dilated_patches model not available")
+def out_extent(N, M, stride, lo, hi, ldil, rdil):
+    """standard size formula: floor((N' + lo + hi - rdil*(M-1) - 1)/stride) + 1 with N' = (N-1)*ldil + 1"""
+    Np = (N - 1) * ldil + 1
+    num = Np + lo + hi - rdil * (M - 1) - 1
+    return sym.int_floordiv(num, stride) + 1
+
+
+def _same_padding(N, M, stride, ldil, rdil):
+    """XLA 'SAME': output ceil(N'/stride); total padding split low = total // 2"""
+    Np = (N - 1) * ldil + 1
+    outn = sym.int_floordiv(Np + stride - 1, stride)
+    tot = (outn - 1) * stride + (M - 1) * rdil + 1 - Np
+    if isinstance(tot, SInt):
+        if valid(tot.e >= 0):
+            pass
+        elif valid(tot.e <= 0):
+            tot = 0
+        else:
+            tot = mk(z3.If(tot.e > 0, tot.e, 0))
+    else:
+        tot = max(tot, 0)
+    lo = sym.int_floordiv(tot, 2)
+    return lo, tot - lo
+
+
+def _split_groups(dim, G, inner_ext=None, what=""):
+    """split a feature Dim into (group factors, inner factors) with prod(group factors) == G"""
+    fs = factors(dim)
+    if concrete_int(G) == 1:
+        return [], fs
+    acc = 1
+    for i, f in enumerate(fs):
+        acc = acc * extent(f)
+        if arr.ext_eq(acc, G):
+            rest = fs[i + 1:]
+            if inner_ext is not None:
+                r = 1
+                for x in rest:
+                    r = r * extent(x)
+                if not arr.ext_eq(r, inner_ext):
+                    break
+            return fs[: i + 1], rest
+    raise OutOfReach(f"conv: cannot split the {what} feature axis {dim} into {G} groups along its structure")
+
+
+def conv_general_dilated(lhs, rhs, window_strides, padding, lhs_dilation=None, rhs_dilation=None,
+                         dimension_numbers=None, feature_group_count=1, **kw):
+    _used("lax.conv_general_dilated (direct-sum definition, NHWC/HWIO, groups, dilations, padding)")
+    lhs, rhs = lift(lhs), lift(rhs)
+    dn = dimension_numbers
+    if dn not in (("NHWC", "HWIO", "NHWC"), ("NHWDC", "HWDIO", "NHWDC")):
+        raise OutOfReach(f"conv_general_dilated: dimension numbers {dn} not modelled")
+    D = len(dn[0]) - 2
+    if lhs.ndim != D + 2 or rhs.ndim != D + 2:
+        raise ValueError(f"conv_general_dilated: operand ranks {lhs.ndim}, {rhs.ndim} for {D} spatial dimensions")
+    stride = [concrete_int(s) for s in window_strides]
+    ldil = [1] * D if lhs_dilation is None else [concrete_int(s) for s in lhs_dilation]
+    rdil = [1] * D if rhs_dilation is None else [concrete_int(s) for s in rhs_dilation]
+    if any(v is None or v < 1 for v in stride + ldil + rdil) or len(stride) != D or len(ldil) != D or len(rdil) != D:
+        raise OutOfReach("conv: symbolic / malformed strides or dilations")
+    M = [concrete_int(extent(d)) for d in rhs.dims[:D]]
+    if any(m is None for m in M):
+        raise OutOfReach("conv: symbolic filter extent")
+    N = [extent(d) for d in lhs.dims[1:1 + D]]
+    if isinstance(padding, str):
+        if padding.upper() == "VALID":
+            pads = [(0, 0)] * D
+        elif padding.upper() == "SAME":
+            pads = [_same_padding(N[d], M[d], stride[d], ldil[d], rdil[d]) for d in range(D)]
+        else:
+            raise ValueError(f"conv_general_dilated: unknown padding {padding}")
+    else:
+        pads = [tuple(p) for p in padding]
+        if len(pads) != D or any(len(p) != 2 for p in pads):
+            raise ValueError("conv_general_dilated: padding must be a sequence of (low, high) pairs, one per spatial dimension")
+    G = feature_group_count
+    Idim, Odim = rhs.dims[D], rhs.dims[D + 1]
+    Cdim = lhs.dims[D + 1]
+    # C = G * I and O divisible by G: library pre-conditions
+    st, m = sym.refute_or_prove(zi(extent(Cdim)) == zi(G) * zi(extent(Idim)))
+    if st == "refuted":
+        raise Refuted("conv_general_dilated: lhs feature count != feature_group_count * rhs input feature count", m)
+    if st != "proved":
+        raise OutOfReach("conv: feature count relation undecided")
+    g_l, in_l = _split_groups(Cdim, G, extent(Idim), "lhs")
+    g_o, in_o = _split_groups(Odim, G, None, "rhs output")
+    gl_dim, go_dim = arr.mkprod(g_l) if g_l else None, arr.mkprod(g_o) if g_o else None
+    inl_dim = arr.mkprod(in_l)
+    out_sp = []
+    for d in range(D):
+        e = out_extent(N[d], M[d], stride[d], pads[d][0], pads[d][1], ldil[d], rdil[d])
+        st, m = sym.refute_or_prove(zi(e) >= 0)
+        if st != "proved":
+            raise OutOfReach("conv: output extent possibly negative (outside the contract model)")
+        out_sp.append(Atom(e))
+    dims = [lhs.dims[0]] + out_sp + [Odim]
+    taps = list(itertools.product(*[range(m) for m in M]))
+
+    def split_idx(dim, parts_g, parts_in, ix):
+        """index of a feature Dim -> (group digits, inner digits) as lists following the factor lists"""
+        fs = factors(dim)
+        if isinstance(ix, arr.Flat):
+            raise OutOfReach("conv: flat index into a structured feature axis")
+        vals = list(ix) if isinstance(dim, Prod) else [ix]
+        return vals[: len(parts_g)], vals[len(parts_g):]
+
+    def elem(idx):
+        n = idx[0]
+        x = [zi(v) for v in idx[1:1 + D]]
+        o = idx[1 + D]
+        og, oin = split_idx(Odim, g_o, in_o, o)
+        # group digits of the output select the same group of the lhs features
+        if g_l:
+            gidx_o = tuple(og) if len(g_o) > 1 else og[0]
+            gidx_l = arr.conv_idx(go_dim, gidx_o, gl_dim)
+            gl_vals = list(gidx_l) if isinstance(gl_dim, Prod) and not isinstance(gidx_l, arr.Flat) else [gidx_l]
+            if isinstance(gidx_l, arr.Flat) and isinstance(gl_dim, Prod):
+                raise OutOfReach("conv: group index not structurally convertible")
+        else:
+            gl_vals = []
+
+        def body(cvals):
+            c = cvals[0]
+            cin = list(c) if isinstance(inl_dim, Prod) else [c]
+            lf = gl_vals + cin
+            lfeat = tuple(lf) if isinstance(Cdim, Prod) else lf[0]
+            rin = arr.conv_idx(inl_dim, c, Idim)
+            tot = 0
+            for a in taps:
+                conds = []
+                pos = []
+                for d in range(D):
+                    pd = z3.simplify(x[d] * stride[d] + a[d] * rdil[d] - zi(pads[d][0]))
+                    if ldil[d] == 1:
+                        q = pd
+                    else:
+                        conds.append(pd % ldil[d] == 0)
+                        q = pd / ldil[d]
+                    conds += [q >= 0, q < zi(N[d])]
+                    pos.append(q)
+                cond = z3.simplify(z3.And(*conds))
+                if z3.is_false(cond) or valid(z3.Not(cond)):
+                    continue
+                with sym.scope([cond]):
+                    pos_s = [z3.simplify(p) for p in pos]
+                    lv = lhs.elem([n] + [arr.Flat(p) if not isinstance(lhs.dims[1 + d], Atom) else p for d, p in enumerate(pos_s)] + [lfeat])
+                rv = rhs.elem(list(a) + [rin, o])
+                term = arr.t_bin("mul", lv, rv)
+                if arr._num(term) and term == 0:
+                    continue
+                if not valid(cond):
+                    from .bigsum import SumExpr
+                    if isinstance(term, SumExpr):
+                        raise OutOfReach("conv: conditional BigSum")
+                    term = z3.If(cond, arr.t_z3(term, True), z3.RealVal(0))
+                tot = arr.t_bin("add", tot, term)
+            return tot
+
+        ci = arr.concrete_indices(inl_dim)
+        if ci is not None:
+            tot = 0
+            for c in ci:
+                tot = arr.t_bin("add", tot, body([c]))
+            return tot
+        from .bigsum import bigsum
+        return bigsum([inl_dim], body)
+
+    return SArray(dims, elem, "real")
+
+
+def conv_general_dilated_patches(lhs, filter_shape, window_strides, padding, lhs_dilation=None, rhs_dilation=None,
+                                 dimension_numbers=None, **kw):
+    """patches[n, c*prod(filter_shape) + flat(a), x...] = lhs[n, x*stride + a - lo ..., c]   (output 'NCHW' layout,
+    channel-major then filter position, as documented)"""
+    _used("lax.conv_general_dilated_patches (channel-major patch extraction)")
+    lhs = lift(lhs)
+    dn = dimension_numbers
+    if dn not in (("NHWC", "OIHW", "NCHW"), ("NHWDC", "OIHWD", "NCHWD")):
+        raise OutOfReach(f"conv_general_dilated_patches: dimension numbers {dn} not modelled")
+    D = len(dn[0]) - 2
+    M = [concrete_int(m) for m in filter_shape]
+    stride = [concrete_int(s) for s in window_strides]
+    pads = [tuple(p) for p in padding]
+    if any(v is None for v in M + stride) or lhs_dilation is not None or rhs_dilation is not None:
+        raise OutOfReach("conv_general_dilated_patches: symbolic window / dilations not modelled")
+    if any(concrete_int(p[0]) != 0 or concrete_int(p[1]) != 0 for p in pads):
+        raise OutOfReach("conv_general_dilated_patches: padding not modelled")
+    N = [extent(d) for d in lhs.dims[1:1 + D]]
+    out_sp = [Atom(out_extent(N[d], M[d], stride[d], 0, 0, 1, 1)) for d in range(D)]
+    Cdim = lhs.dims[1 + D]
+    fdim = arr.mkprod([Cdim] + [Atom(m) for m in M])
+    dims = [lhs.dims[0], fdim] + out_sp
+
+    def elem(idx):
+        n, f = idx[0], idx[1]
+        if isinstance(f, arr.Flat):
+            raise OutOfReach("patches: flat feature index")
+        fv = list(f)
+        nc = len(factors(Cdim))
+        c = tuple(fv[:nc]) if isinstance(Cdim, Prod) else fv[0]
+        a = fv[nc:]
+        pos = [z3.simplify(zi(idx[2 + d]) * stride[d] + zi(a[d])) for d in range(D)]
+        return lhs.elem([n] + pos + [c])
+
+    return SArray(dims, elem, lhs.dtype)
